@@ -155,6 +155,41 @@ def acceptor_scenario(phase, cut, dribble):
                 send(B["rel_rq"][:cut])
             elif phase == "idle":
                 pass
+            elif phase == "abort-dribble":
+                # a request on a context that was never negotiated makes pynetdicom abort (AA-1, Sta13); the peer ignores
+                # the A-ABORT, keeps the connection open and keeps an unfinished PDU on the wire, one byte every 20 ms:
+                # in Sta13 only the ARTIM timer (the ACSE timeout) bounds this
+                from harness import rawpeer
+
+                s.sendall(rawpeer.c_echo_rq(3, 1))
+                stop = time.monotonic() + 3 * T + 1.5
+                junk = B["echo_frags"][0]
+                t_sent = time.monotonic()
+                alive = True
+                # two bytes at a time at ODD offsets of an even-length unit: the last byte of every PDU travels with the
+                # first byte of the next one, so the reader is never between two PDUs
+                unit = junk if len(junk) % 2 == 0 else junk + junk
+                try:
+                    s.sendall(unit[:1])
+                except OSError:
+                    alive = False
+                pos = 1
+                while time.monotonic() < stop and alive:
+                    two = (unit + unit)[pos : pos + 2]
+                    pos = (pos + 2) % len(unit)
+                    try:
+                        s.sendall(two)
+                    except OSError:
+                        alive = False
+                        break
+                    time.sleep(0.02)
+                    if not [t for t in e2e.pynet_threads() if t not in before and t.is_alive()]:
+                        alive = False
+                # still there when the bound has passed, although the peer never stopped: that is the violation (once the
+                # peer stops, the read timeout ends it quickly - which would hide it)
+                leaks = [f"{type(t).__name__}:{t.name}" for t in e2e.pynet_threads() if t not in before and t.is_alive()] if alive else []
+                e2e.wait_quiet(before, 1.0)
+                return {"took": time.monotonic() - t_sent, "leaks": leaks, "role": "acceptor"}
         t_sent = time.monotonic()
         leaks = e2e.wait_quiet(before, 3 * T + 1.5)
         return {"took": time.monotonic() - t_sent, "leaks": leaks, "role": "acceptor"}
@@ -414,6 +449,7 @@ def scenarios(ctx):
     nfr = len(B["echo_frags"])
     sc += [("acc", "msg", c, 0) for c in ((1, nfr - 1) if ctx.quick else range(1, nfr))]
     sc += [("acc", "pdata", len(B["echo_rq"]) - 1, 0.05), ("acc", "rq", 40, 0.05)]  # dribble: 1 byte / 50 ms
+    sc += [("acc", "abort-dribble", 0, 0), ("acc", "abort-dribble", 1, 0)]
     sc += [("tls", "silent"), ("tls", "partial-record")]
     sc += [("req", "silent", 0), ("req", "echo-silent", 0), ("req", "release-silent", 0)]
     ac_cuts = [1, 6, 7, 40, len(B["ac"]) - 1] if ctx.quick else list(range(1, len(B["ac"]), 3))
@@ -497,7 +533,7 @@ def run(ctx):
                     f"(bound {bound:.1f} s)", case)
             continue
         dribble = job[0] == "acc" and job[3] > 0
-        ctx.case(case, nontrivial=job[0] == "after" or job[1] in ("rq", "pdata", "msg", "release", "ac", "echo-partial"),
+        ctx.case(case, nontrivial=job[0] == "after" or job[1] in ("rq", "pdata", "msg", "release", "ac", "echo-partial", "abort-dribble"),
                  kind=f"{job[0]}:{job[1]}" + (":dribble" if dribble else "") + ((":exhausted" if job[2] else ":stopped-at-final") if job[0] == "after" else ""))
         if "harness_error" in r:
             ctx.diff(case, r["harness_error"], "n/a", "scenario harness failed")
